@@ -21,14 +21,25 @@ def gen_module(rnd):
         k[0] += 1
         return k[0]
 
+    blocks_of = {}
+
     def doc(indent, n):
-        text = ''.join(indent + ln[4:] + '\n' if ln else '\n' for ln in (DOC % n).split('\n')[:-1])
         prefix = rnd.choice(['', '', 'r', 'R', 'u'])
+        if rnd.random() < 0.35:
+            # google layout: n_blocks example blocks (and one block that is not an example)
+            n_blocks = rnd.randint(0, 3)
+            blocks_of[n] = n_blocks
+            lines = [indent + prefix + '"""', indent + 'doc', '', indent + 'Args:', indent + '    x (int): not code', '']
+            for b in range(n_blocks):
+                lines += [indent + rnd.choice(['Example:', 'Doctest:']), indent + '    >>> x = %d' % (n * 10 + b), '']
+            lines += [indent + '"""']
+            return '\n'.join(lines) + '\n'
+        text = ''.join(indent + ln[4:] + '\n' if ln else '\n' for ln in (DOC % n).split('\n')[:-1])
         return text.replace('"""', prefix + '"""', 1)
 
     if rnd.random() < 0.5:
         out.append('"""\nmodule doc\n\n>>> m = 0\n"""\n')
-        expect.append('__doc__:0')
+        expect.append(('__doc__', None))
 
     def func(indent, prefix, collect, kind=None):
         n = uid()
@@ -50,7 +61,7 @@ def gen_module(rnd):
             out.append(indent + '    def inner%d():\n' % m + doc(indent + '        ', m) + indent + '        pass\n')
         out.append(indent + '    pass\n\n')
         if collect:
-            expect.append(prefix + name + ':0')
+            expect.append((prefix + name, n))
         if kind == 'property' and rnd.random() < 0.7:
             m = uid()
             out.append(indent + '@' + name + '.setter\n' + indent + 'def ' + name + '(self, value):\n' + doc(indent + '    ', m)
@@ -61,7 +72,7 @@ def gen_module(rnd):
         name = 'K%d' % n
         out.append(indent + 'class ' + name + ':\n' + doc(indent + '    ', n))
         if collect:
-            expect.append(name + ':0')
+            expect.append((name, n))
         for _ in range(rnd.randint(0, 3)):
             kind = rnd.choice([None, 'static', 'class', 'property', 'decorated', 'async', 'nested_class'])
             if kind == 'nested_class':
@@ -88,7 +99,7 @@ def gen_module(rnd):
         else:
             out.append('if __name__ == "__main__":\n')
             func('    ', '', False)
-    return ''.join(out), sorted(expect)
+    return ''.join(out), expect, blocks_of
 
 
 def run(eng, tier, seed):
@@ -101,7 +112,7 @@ def run(eng, tier, seed):
     n_mod = 120 if tier == 'quick' else 1500
     try:
         for i in range(n_mod):
-            src, expect = gen_module(rnd)
+            src, expect_items, blocks_of = gen_module(rnd)
             try:
                 compile(src, 'gen', 'exec')
             except SyntaxError as ex:      # noqa: the generator must produce valid modules
@@ -125,7 +136,19 @@ def run(eng, tier, seed):
                         break
                 if cex is not None:
                     break
-                want = expect if style != 'google' else []        # no google blocks in these docstrings
+                want = []
+                for base, n_doc in expect_items:
+                    nb = blocks_of.get(n_doc)
+                    if nb is None:
+                        # a docstring without google labels: one freeform doctest; nothing for the google style
+                        if style != 'google':
+                            want.append(base + ':0')
+                    elif style == 'freeform':
+                        if nb >= 1:
+                            want.append(base + ':0')        # all the code of the docstring as one doctest
+                    else:
+                        want.extend('%s:%d' % (base, b) for b in range(nb))     # google / auto: one per example block, in order
+                want = sorted(want)
                 if sorted(got) != want:
                     cex = {'module_source': src, 'style': style,
                            'problem': 'missing %r, unexpected or repeated %r' % (sorted(set(want) - set(got)),
